@@ -96,11 +96,22 @@ def write_generated(name: str, content: str):
         lock.close()
 
 
+def prop_files(pid: str):
+    """Props/<pid>.lean plus extension files Props/<pid><Suffix>.lean (e.g. C02Fusion.lean)."""
+    d = LEAN / "DaskArrayModel" / "Props"
+    out = [f for f in sorted(d.glob(f"{pid}*.lean")) if re.fullmatch(pid + r"[A-Za-z]*", f.stem)]
+    return out
+
+
 def prop_theorems(pid: str):
-    """Theorem names declared in Props/<pid>.lean (comments stripped)."""
-    f = LEAN / "DaskArrayModel" / "Props" / f"{pid}.lean"
-    if not f.exists():
-        return []
+    """Theorem names declared in Props/<pid>*.lean (comments stripped)."""
+    names = []
+    for f in prop_files(pid):
+        names += _theorems_in(f)
+    return names
+
+
+def _theorems_in(f):
     src = _strip_comments(f.read_text())
     ns = []
     names = []
@@ -122,7 +133,7 @@ def prop_theorems(pid: str):
 def _import_closure(pid):
     """Lean source files (inside the project) transitively imported by Props/<pid>.lean, plus
     the driver's sources (the model files the correspondence executes)."""
-    roots = [LEAN / "DaskArrayModel" / "Props" / f"{pid}.lean", LEAN / "Driver.lean"]
+    roots = prop_files(pid) + [LEAN / "Driver.lean"]
     seen = {}
     stack = [r for r in roots if r.exists()]
     while stack:
@@ -157,9 +168,7 @@ def lean_audit(pid: str, tier: str):
     res = {"obligations": 0, "discharged": 0, "broken": [], "axioms": {}, "log": ""}
     # build only this property's theorems (and the driver): a table generated for another
     # property that no longer checks must not break this one
-    targets = ["driver"]
-    if (LEAN / "DaskArrayModel" / "Props" / f"{pid}.lean").exists():
-        targets.insert(0, f"DaskArrayModel.Props.{pid}")
+    targets = [f"DaskArrayModel.Props.{f.stem}" for f in prop_files(pid)] + ["driver"]
     ok, log = lean_build(targets)
     res["log"] = log[-4000:]
     thms = prop_theorems(pid)
@@ -177,7 +186,7 @@ def lean_audit(pid: str, tier: str):
     audit = LEAN / ".audit"
     audit.mkdir(exist_ok=True)
     af = audit / f"Audit_{pid}_{os.getpid()}.lean"
-    body = [f"import DaskArrayModel.Props.{pid}"] + [f"#print axioms {t}" for t in thms]
+    body = [f"import DaskArrayModel.Props.{f.stem}" for f in prop_files(pid)] + [f"#print axioms {t}" for t in thms]
     af.write_text("\n".join(body) + "\n")
     try:
         p = subprocess.run(["lake", "env", "lean", str(af)], cwd=LEAN, capture_output=True, text=True, timeout=1200)
@@ -206,7 +215,7 @@ def lean_audit(pid: str, tier: str):
     if tier == "thorough" and not res["broken"]:
         try:
             p = subprocess.run(
-                ["lake", "env", "leanchecker", f"DaskArrayModel.Props.{pid}"],
+                ["lake", "env", "leanchecker"] + [f"DaskArrayModel.Props.{f.stem}" for f in prop_files(pid)],
                 cwd=LEAN, capture_output=True, text=True, timeout=1800,
             )
             res["leanchecker"] = "ok" if p.returncode == 0 else (p.stdout + p.stderr)[-500:]
@@ -469,9 +478,19 @@ def main_for(pid, run_fn):
 
         mod = importlib.import_module(f"harness.props.{pid}")
         if hasattr(mod, "translate"):
-            # step 1 of the verdict logic: regenerate Generated/*.lean from /repo's working tree
-            mod.translate(ctx)
-        audit = lean_audit(pid, tier)
+            # step 1 of the verdict logic: regenerate Generated/*.lean from the repository's working
+            # tree.  The tables are shared files, so translate + build + audit run under one lock:
+            # a concurrent run against another tree (VERIF_REPO) must not swap the table in between.
+            tl = open(LEAN / ".tables.lock", "w")
+            fcntl.flock(tl, fcntl.LOCK_EX)
+            try:
+                mod.translate(ctx)
+                audit = lean_audit(pid, tier)
+            finally:
+                fcntl.flock(tl, fcntl.LOCK_UN)
+                tl.close()
+        else:
+            audit = lean_audit(pid, tier)
         ctx.audit = audit
         if args.replay:
             ctx.extra["replay_of"] = args.replay
